@@ -66,6 +66,29 @@ def candidateIndex {σ : Type} (G : Gen σ) (kind : Kind) (seed? : Option Int)
     | none => .error .notEnough
     | some c => .ok (select G kind s c.toNat sched g0).1
 
+/-! ### the DPoS v2 selection (`getRandomDposV2Producers`) -/
+
+/-- the selection loop: `c` times draw an index below the current length and move that key to the
+    output; the keys left over follow in their order.  (`acc` is the output so far, reversed.) -/
+def pickLoop {σ α : Type} (G : Gen σ) : Nat → σ → List α → List α → List α × σ
+  | 0, g, keys, acc => (acc.reverse ++ keys, g)
+  | c + 1, g, keys, acc =>
+    let r := G.intn g keys.length
+    match keys[r.1]? with
+    | some k => pickLoop G c r.2 (keys.eraseIdx r.1) (k :: acc)
+    | none => (acc.reverse ++ keys, r.2)     -- not reachable: `Intn(n) < n`
+
+/-- `getRandomDposV2Producers` after the candidate keys are collected: if there are more keys than
+    seats, `count` of them are drawn; the environment acts at the hook point between seeding and
+    the first draw. -/
+def randomV2 {σ α : Type} (G : Gen σ) (kind : Kind) (s : Int) (keys : List α) (count : Nat)
+    (sched : List EnvOp) (g0 : σ) : List α :=
+  if keys.length > count then
+    match kind with
+    | .local => (pickLoop G count (G.seed s) keys []).1
+    | .global => (pickLoop G count (runEnv G sched (G.seed s)) keys []).1
+  else keys
+
 /-! ### order of the voted producers -/
 
 /-- a producer as the sort sees it: votes and node public key (bytes compared lexicographically) -/
